@@ -1883,6 +1883,8 @@ double ov_time_tell(OggVorbis_File *vf){
       time_total-=ov_time_total(vf,link);
       if(vf->pcm_offset>=pcm_total)break;
     }
+    /* no section holds the offset: a failed seek leaves pcm_offset at -1 */
+    if(link<0)return(OV_EINVAL);
   }
 
   return((double)time_total+(double)(vf->pcm_offset-pcm_total)/vf->vi[link].rate);
